@@ -97,6 +97,9 @@ def gen(seed, tier):
         ops = [msg(r, 0, p, 8, src=15, dst=255), msg(r, 0, p, 3, src=15, dst=255), 'L 3 %d,127250' % p, msg(r, 0, p, 8, src=15, dst=255), msg(r, 0, p, 3, src=15, dst=255),
                'L 3 65535', msg(r, 0, p, 5, src=15, dst=255), 'L 2 %d' % p, msg(r, 0, p, 5, src=15, dst=255), msg(r, 0, 129029, 8, src=15, dst=255), 'L 2 129029', msg(r, 0, 129029, 8, src=15, dst=255),
                'L 1 %d' % p, msg(r, 0, p, 4, src=15, dst=255), 'L 2 65534', msg(r, 0, p, 4, src=15, dst=255)]
+        # Extend first, Set afterwards: the two lists are independent, a later Set does not drop the declared extension (seed C01-17)
+        ops += ['L 3 %d' % p, 'L 2 129029', msg(r, 0, p, 5, src=15, dst=255), msg(r, 0, p, 0, src=15, dst=255), 'L 1 %d' % (p + 1), 'L 0 127250',
+                msg(r, 0, p + 1, 8, src=15, dst=255), msg(r, 0, p, 8, src=15, dst=255)]
         cases.append(cfg + ' | ' + ' ; '.join(ops))
     # every length 0..223 once for a single-frame and a fast-packet PGN
     for pgn in (127250, 129029, 65300, 126720):
